@@ -326,6 +326,11 @@ impl<'a> Parser<'a> {
                 }
                 TokenKind::Semicolon => {
                     self.advance(tokens);
+                    // A semicolon may also end a line: skip the line break(s) that
+                    // follow, like in the `Newline` case above. Otherwise, the next
+                    // statement would start at the newline token and `1;\n2` would
+                    // be a parse error although `1;` and `2` are both fine.
+                    self.skip_empty_lines(tokens);
                 }
                 TokenKind::Eof => {
                     break;
